@@ -1,0 +1,14 @@
+//go:build verif
+
+// Contracts for the gowp verifier (/verif). Comment-only file: compiled only with -tags verif and
+// contributes no code either way.
+
+package graphdb
+
+//@ func makeZombiePubkeys
+//@   props C20
+//@   let older1 = e1 != nil && e2 != nil && ret(Before)
+//@   ensures e1 == nil && e2 == nil ==> result0 == node1 && result1 == node2
+//@   ensures (e1 == nil && e2 != nil) || older1 ==> result0 == node1 && forall(i, 0, 33, result1[i] == 0)
+//@   ensures e1 != nil && !older1 ==> forall(i, 0, 33, result0[i] == 0) && result1 == node2
+//@   site call Before: assert arg(0) == *e1 && arg(1) == *e2
